@@ -219,6 +219,7 @@ fn run_sized<T: Words + Asset>(c: &Case, out: &mut Outcome) {
     let cache = AssetCache::with_source(src.handle());
     let h = cache.load::<T>("big").expect("load big");
     let sh = Shared { stop: AtomicBool::new(false), started: AtomicU64::new(0), finished: AtomicU64::new(0), err: Mutex::new(None), overlaps: AtomicU64::new(0) };
+    let bracket = c.readers.iter().any(|s| matches!(s, Style::Bracket));
     std::thread::scope(|s| {
         for style in &c.readers {
             let (sh, style) = (&sh, *style);
@@ -237,6 +238,12 @@ fn run_sized<T: Words + Asset>(c: &Case, out: &mut Outcome) {
                 sh.started.fetch_add(1, SeqCst);
                 cache.hot_reload();
                 sh.finished.fetch_add(1, SeqCst);
+                if bracket {
+                    // leave a window in which provably no call is in flight (for the bracket samplers)
+                    for _ in 0..3000 {
+                        std::hint::spin_loop();
+                    }
+                }
                 if h.last_reload_id() != before {
                     break;
                 }
